@@ -179,6 +179,13 @@ def check_cases(ctx, cases):
         snp = build(bs)
         strict = fmt(snp, False)
         loose = fmt(snp, True)
+        # the (deprecated, still accepted) dictionary form of the argument behaves like the object
+        import warnings
+
+        with warnings.catch_warnings():
+            warnings.simplefilter("ignore")
+            if fmt(snp.to_dict(), False) != strict or fmt(snp.to_dict(), True) != loose:
+                ctx.fail(case, "snapshot_git_object gives another result for the dictionary form of the same snapshot", "dict-form-differs")
         impls.append({"strict": strict, "loose": loose, "id": snp.id})
         reqs.append({"op": "snp_manifest", "branches": case["branches"], "ignore": False})
         reqs.append({"op": "snp_manifest", "branches": case["branches"], "ignore": True})
